@@ -236,6 +236,32 @@ def scenarios(tier):
         d.untrack_wire(0)
         d.add(O.Noop()(0))
     add("integer wire index after untracking", IndexError, untracked_again, int_in_tracked)
+    # untracking one of several wires: that index is refused from then on, through every entry point,
+    # whatever else is tracked at higher indices (a table compacted in place would let it name a neighbour)
+    for width in (2, 3, 4):
+        for victim in range(width):
+            for how in ("add", "tracked_wire", "extend", "set_indexed_outputs", "untrack_wire"):
+                def stale(width=width, victim=victim, how=how):
+                    d = TrackedDfg(*([T.Bool] * width), track_inputs=True)
+                    d.untrack_wire(victim)
+                    if how == "add":
+                        d.add(O.Noop()(victim))
+                    elif how == "tracked_wire":
+                        d.tracked_wire(victim)
+                    elif how == "extend":
+                        d.extend(O.Noop()(victim))
+                    elif how == "untrack_wire":
+                        d.untrack_wire(victim)
+                    else:
+                        d.set_indexed_outputs(victim)
+
+                def live(width=width, victim=victim):
+                    d = TrackedDfg(*([T.Bool] * width), track_inputs=True)
+                    d.untrack_wire(victim)
+                    for i in range(width):
+                        if i != victim:
+                            d.add(O.Noop()(i))
+                add(f"index {victim} of {width} tracked wires used through {how} after it was untracked", IndexError, stale, live)
     # 9. incomplete operations cannot be serialized
     def incomplete(make):
         def run():
